@@ -25,7 +25,7 @@ import (
 	ocispec "github.com/opencontainers/image-spec/specs-go/v1"
 )
 
-var scopes = []string{"reg.io/a", "reg.io/a/b", "reg.io/a/b/c", "reg.io/ab", "reg.io/a-b", "reg.io/a_b", "reg.io/a.b", "REG.io/a", "reg.io:5000/a", "localhost/a", "reg.io/b", "reg.io.evil.com/a", "sub.reg.io/a", "reg.io/a/a",
+var scopes = []string{"reg.io/a", "reg.io/a/b", "reg.io/a/b/c", "reg.io/ab", "reg.io/a-b", "reg.io/a_b", "reg.io/a.b", "REG.io/a", "reg.io:5000/a", "localhost/a", "reg.io/b", "reg.io.evil.com/a", "sub.reg.io/a", "reg.io/a/a", "reg.io/net--monitor", "reg.io/a---b/c",
 	// long but perfectly legal repository paths (190, 255 and 300 characters; nothing limits the length of a scope), and a near miss
 	"reg.io/" + strings.Repeat("a", 183), "reg.io/" + strings.Repeat("a", 184), "reg.io/team/" + strings.Repeat("sub/", 60) + "app", "reg.io/" + strings.Repeat("b", 293)}
 
@@ -42,6 +42,31 @@ var extraPaths = []refPath{
 }
 
 const digestSuffix = "@sha256:aaaaaaaaaaaaaaaaaaaaaaaaaaaaaaaaaaaaaaaaaaaaaaaaaaaaaaaaaaaaaaaa"
+
+// sameStatement compares what a selection handed out with the document's statement, field by field (nil and empty
+// slices / maps are the same thing here).
+func sameSV(a, b trustpolicy.SignatureVerification) bool {
+	if a.VerificationLevel != b.VerificationLevel || a.VerifyTimestamp != b.VerifyTimestamp || len(a.Override) != len(b.Override) {
+		return false
+	}
+	for k, v := range a.Override {
+		if w, ok := b.Override[k]; !ok || w != v {
+			return false
+		}
+	}
+	return true
+}
+func sameStrings(a, b []string) bool {
+	if len(a) != len(b) {
+		return false
+	}
+	for i := range a {
+		if a[i] != b[i] {
+			return false
+		}
+	}
+	return true
+}
 
 func docJSON(v any) string {
 	b, _ := json.Marshal(v)
@@ -111,6 +136,7 @@ func main() {
 			case 2:
 				p.SignatureVerification.Override = map[trustpolicy.ValidationType]trustpolicy.ValidationAction{} // what `"override": {}` decodes to: present, empty
 			}
+			p.SignatureVerification.VerifyTimestamp = []trustpolicy.TimestampOption{"", "", trustpolicy.OptionAlways, trustpolicy.OptionAfterCertExpiry}[rng.Intn(4)]
 			if dd.skip == "" && rng.Intn(5) == 0 {
 				p.SignatureVerification = trustpolicy.SignatureVerification{VerificationLevel: "skip"}
 				p.TrustStores, p.TrustedIdentities = nil, nil
@@ -184,6 +210,13 @@ func main() {
 							fmt.Sprintf("reference %q selected statement %q, model says %q (err=%v)", ref, gotName, want, err),
 							map[string]any{"document": json.RawMessage(snap), "reference": ref, "owner": d.owner, "wildcard": d.wild})
 						continue
+					}
+					if err == nil {
+						for _, st := range d.st {
+							if st.Name == got.Name && (!sameSV(st.SignatureVerification, got.SignatureVerification) || !sameStrings(st.TrustStores, got.TrustStores) || !sameStrings(st.TrustedIdentities, got.TrustedIdentities) || !sameStrings(st.RegistryScopes, got.RegistryScopes)) {
+								r.Violation(map[string]string{"kind": "statement-not-the-documents", "doc": "oci"}, fmt.Sprintf("the statement handed out for %q differs from the document's statement %q: %s vs %s", ref, st.Name, docJSON(got), docJSON(st)), nil)
+							}
+						}
 					}
 					if err == nil && pi < 3 && sf.digest {
 						// aliasing monitor
@@ -283,6 +316,7 @@ func main() {
 			case 2:
 				p.SignatureVerification.Override = map[trustpolicy.ValidationType]trustpolicy.ValidationAction{}
 			}
+			p.SignatureVerification.VerifyTimestamp = []trustpolicy.TimestampOption{"", "", trustpolicy.OptionAlways, trustpolicy.OptionAfterCertExpiry}[rg.Intn(4)]
 			if global == "" && rg.Intn(3) == 0 {
 				p.GlobalPolicy = true
 				global = n
@@ -338,6 +372,11 @@ func main() {
 				continue
 			}
 			if gerr == nil {
+				for _, bst := range st {
+					if bst.Name == got.Name && (!sameSV(bst.SignatureVerification, got.SignatureVerification) || !sameStrings(bst.TrustStores, got.TrustStores) || !sameStrings(bst.TrustedIdentities, got.TrustedIdentities) || bst.GlobalPolicy != got.GlobalPolicy) {
+						r.Violation(map[string]string{"kind": "statement-not-the-documents", "doc": "blob"}, fmt.Sprintf("the blob statement handed out for %q differs from the document's statement: %s vs %s", q, docJSON(got), docJSON(bst)), nil)
+					}
+				}
 				first := docJSON(got)
 				scribbleSV(&got.SignatureVerification)
 				scribbleStrings(got.TrustStores)
